@@ -1,11 +1,8 @@
-(** Boolean monitors: executable judgements of the properties on an analysis result.
-    They are extracted with the model and run on the IMPLEMENTATION's output; each comes with a
-    lemma relating it to the Prop-level statement of the property (in [Proofs/MonitorsSound.v]). *)
+(** Monitor for C09 (run on the implementation's output). *)
 From SA Require Import Model.
-From SA.Proofs Require Import Reach InvReg.
+From SA.Spec Require Import Stack.
 Local Open Scope list_scope.
 
-(** ** C09 *)
 Fixpoint increasing_from (prev : N) (l : list N) : bool :=
   match l with
   | [] => true
